@@ -21,7 +21,7 @@ def bounds(tier):
 
 
 def mk(op, N, k=1, tk=None, region=None, rname='', lead=2, trail=0, gap='sym', dup=None, timeout=60,
-       harness='order_cell', sk=None, level='story', pid='C01', w=0, extra=None, idlen=1):
+       harness='order_cell', sk=None, level='story', pid='C01', w=0, extra=None, idlen=1, same=None):
     lvl, has_t, has_src, has_new = OPS[op]
     P = {'op': op, 'N': N, 'k': k, 'lead': lead, 'trail': trail}
     if lvl == 'item':
@@ -49,6 +49,8 @@ def mk(op, N, k=1, tk=None, region=None, rname='', lead=2, trail=0, gap='sym', d
                 pre.append('0 <= t < %d' % N)
                 if has_src:
                     pre += ['t != u%d' % i for i in range(k)]
+        if same is not None:
+            P['same'] = same
         if dup is not None:
             P['dup'] = dup
             sym.append(('d', 'int'))
@@ -85,6 +87,8 @@ def mk(op, N, k=1, tk=None, region=None, rname='', lead=2, trail=0, gap='sym', d
         parts.append('idlen' + str(idlen))
     if extra and extra.get('prehist'):
         parts.append('after-roReplace')
+    if extra and extra.get('prefail'):
+        parts.append('after-refused-messages')
     if k != 1:
         parts.append('k%d' % k)
     if tk and tk != 'existing':
@@ -99,6 +103,8 @@ def mk(op, N, k=1, tk=None, region=None, rname='', lead=2, trail=0, gap='sym', d
         parts.append('gap-%s' % gap)
     if dup is not None:
         parts.append('dup%d' % dup)
+    if same is not None:
+        parts.append('keeps-own-id-%d' % same)
     if lvl == 'item' and w:
         parts.append('w%d' % w)
     cost = (N ** (k + (1 if has_t else 0))) * (N + 1 if gap == 'sym' else 1)
@@ -149,6 +155,10 @@ def cells(tier):
         out.append(mk('roStoryInsert', N, k=2, dup=0, rname='dup-first', timeout=T))
         out.append(mk('EAStoryInsert', N, k=2, dup=0, rname='dup-first', timeout=T))
         out.append(mk('EAStoryInsert', N, k=2, dup=1, rname='dup-second', timeout=T))
+    # the usual replacement: a new version of the replaced story under its own ID, alone or among others
+    for op in ('roStoryReplace', 'EAStoryReplace'):
+        for k, j in ((1, 0), (2, 0), (2, 1), (3, 0), (3, 1), (3, 2)):
+            out.append(mk(op, 3, k=k, same=j, gap=None, timeout=T))
     # IDs of one or two characters: one ID may be a prefix or suffix of another
     for op, kw in (('roStoryMove', {}), ('EAStoryMove', {'k': 2}), ('roStoryDelete', {'k': 2}), ('roStoryReplace', {}),
                    ('roStorySend', {}), ('EAStorySwap', {'k': 2}), ('roStoryInsert', {})):
@@ -158,6 +168,12 @@ def cells(tier):
                    ('roStorySend', {}), ('EAStorySwap', {'k': 2}), ('roStoryInsert', {}), ('roStoryAppend', {}),
                    ('EAStoryInsert', {'tk': 'blank'}), ('EAStoryDelete', {'k': 2}), ('EAStoryReplace', {})):
         out.append(mk(op, 3, gap=None, rname='any', timeout=T, extra={'prehist': True}, **kw))
+    # the same after a series of refused messages (what a non-strict collection merge leaves behind)
+    for op, kw in (('roStoryMove', {}), ('EAStoryMove', {'k': 2}), ('EAStoryMove', {'tk': 'absent'}), ('roStoryDelete', {}),
+                   ('roStoryReplace', {}), ('roStorySend', {}), ('EAStorySwap', {'k': 2}), ('roStoryInsert', {}),
+                   ('roStoryAppend', {}), ('EAStoryInsert', {'tk': 'blank'}), ('EAStoryDelete', {'k': 2}),
+                   ('EAStoryReplace', {})):
+        out.append(mk(op, 3, gap=None, rname='any', timeout=T, extra={'prefail': True}, **kw))
     # a running order without any story
     for op, kw in (('roStoryAppend', {'k': 1}), ('roStoryAppend', {'k': 2}), ('EAStoryInsert', {'tk': 'blank', 'k': 2}),
                    ('EAStoryInsert', {'tk': 'absent'})):
